@@ -218,3 +218,21 @@ Definition from_ok (d : db) (from : xschema) : Prop :=
     find_xtable t from = Some xf -> find_idx m (t_idx (x_t xf)) = Some (k, i) ->
     t_name tt = t -> normalize_idx_name i tt = Some i' ->
     faithful_idx d (i_name i') t i'.
+
+(** ** when the planner is given the inspection of the state: [from = inspect d]
+
+    [idx_ok d]: no inline UNIQUE constraints (their automatic indexes are what the planner renames),
+    and every explicit index of [d] has a name outside the sqlite_autoindex namespace, an inspected
+    form that is a fixed point of [inspect_index] (false only for unbalanced expression texts),
+    that CREATE INDEX accepts on its table, and that the rows satisfy when it is UNIQUE. *)
+Definition idx_ok (d : db) : Prop :=
+  forall ct, In ct (db_tables d) ->
+    ct_uniques ct = [] /\
+    forall j, In j (ct_idx ct) ->
+      Schema.has_prefix SQLITE_AUTOINDEX (i_name j) = None /\
+      inspect_index (inspect_index j) = inspect_index j /\
+      index_def_ok (ct_t ct) (inspect_index j) = EngineModel.Ok tt /\
+      match i_unique (inspect_index j), i_pred (inspect_index j), part_col_names (i_parts (inspect_index j)) with
+      | true, None, Some cols => has_dup_on cols (ct_rows ct) = false
+      | _, _, _ => True
+      end.
